@@ -75,6 +75,7 @@ func (ctx *Context) Parse(value string) error {
 	ctx.Error = nil
 	ctx.NumOpCount = 0
 	ctx.detailCache = ""
+	ctx.DetailSpans = nil // 旧的计算过程指向上一段文本，不能与新文本混用
 
 	// 设置错误消息语言
 	SetParseErrorLanguage(ctx.Config.ParseErrorLanguage)
